@@ -8,6 +8,9 @@ Lemmas for C06 (every use of a grouping is an independent, faithful, locally sco
 3. `merge none` — what a `uses` adds: the grouping entry's children appended unchanged, its
    errors imported;
 4. the `uses` case of `toEntry`: conversion of the grouping in the grouping's own root and scope;
+   `usesStep`, the body of the fold over the `uses` substatements, and (last section) the proof that
+   this fold is the first field step for container, list, case, input, output and notification
+   statements and that every later step only appends children;
 5. binding: the fuel-driven search `findGrouping` equals the declarative `Spec.Uses.bindGrouping`
    (first place of a name-independent search order that declares the name), given enough fuel.
 
@@ -972,5 +975,123 @@ theorem merge_none_free (e oe : Entry) (hfresh : ∀ v ∈ oe.dir, v.name ∉ na
     e.merge none oe = (e.addErrs (importedErrors oe)).withDir (e.dir ++ oe.dir) := by
   rw [merge_none_eq, mergeLoop_free _ _ _ (by intro v hv; unfold names; rw [dir_addErrs]; exact hfresh v hv) hnodup,
     dir_addErrs]
+
+/-! ### the `uses` step is the first field step of `toEntry` -/
+
+/-- The children of `b` are those of `a` followed by more. -/
+def DirGrows (a b : Entry) : Prop := ∃ tail, b.dir = a.dir ++ tail
+
+theorem DirGrows.refl (a : Entry) : DirGrows a a := ⟨[], by simp⟩
+theorem DirGrows.trans {a b c : Entry} (h1 : DirGrows a b) (h2 : DirGrows b c) : DirGrows a c := by
+  obtain ⟨t1, h1⟩ := h1
+  obtain ⟨t2, h2⟩ := h2
+  exact ⟨t1 ++ t2, by rw [h2, h1, List.append_assoc]⟩
+theorem DirGrows.of_eq {a b : Entry} (h : b.dir = a.dir) : DirGrows a b := ⟨[], by simp [h]⟩
+
+theorem dir_withD (e : Entry) (f : EData → EData) : (e.withD f).dir = e.dir := by cases e; rfl
+theorem dir_addErr (e : Entry) (x : Err) : (e.addErr x).dir = e.dir := by cases e; rfl
+
+theorem add_grows (e : Entry) (k : String) (v : Entry) : DirGrows e (e.add k v) := by
+  unfold Entry.add
+  split
+  · exact DirGrows.of_eq (dir_addErr _ _)
+  · exact ⟨[v], by rw [dir_withDir]⟩
+
+theorem importErrors_grows (e c : Entry) : DirGrows e (e.importErrors c) :=
+  DirGrows.of_eq (by unfold Entry.importErrors; exact dir_addErrs _ _)
+
+theorem foldl_grows {α : Type} (f : Entry × TState → α → Entry × TState) (hf : ∀ acc a, DirGrows acc.1 (f acc a).1)
+    (l : List α) (acc : Entry × TState) : DirGrows acc.1 (l.foldl f acc).1 := by
+  induction l generalizing acc with
+  | nil => exact DirGrows.refl _
+  | cons a l ih => exact (hf acc a).trans (ih (f acc a))
+
+/-- The entry a directory-like statement other than `list` and `choice` starts from. -/
+def dir0 (root : Mod) (n : Stmt) : Entry :=
+  .mk { name := n.arg, kind := kindOfKw n.kw, hasDir := true, node := n, nodeMod := root.seq, nodeKw := n.kw } [] [] []
+
+/-- Peel the field steps of `toEntry` that follow the `uses` step: each only appends children. -/
+macro "peel_dir" : tactic => `(tactic|
+  repeat' first
+    | exact DirGrows.refl _
+    | refine DirGrows.trans ?_ (foldl_grows _ (fun acc a => add_grows _ _ _) _ _)
+    | refine DirGrows.trans ?_ (foldl_grows _ (fun acc a => importErrors_grows _ _) _ _)
+    | refine DirGrows.trans ?_ (DirGrows.of_eq (dir_addErrs _ _))
+    | refine DirGrows.trans ?_ (DirGrows.of_eq (dir_withD _ _))
+    | split)
+
+/-- **The `uses` step comes first.**  The children of the entry `toEntry` builds for a `container`
+statement are those the fold of `usesStep` over its `uses` substatements produces from the empty
+entry, followed by whatever the other substatements add. -/
+theorem toEntry_container_uses_first (env : Env) (fuel : Nat) (root : Mod) (scope : List Stmt) (n : Stmt)
+    (visiting : List NodeId) (st : TState) (hkw : n.kw = "container") :
+    DirGrows ((n.all "uses").foldl (usesStep env fuel root (n :: scope) visiting) (dir0 root n, st)).1
+      (toEntry env (fuel + 1) root scope n visiting st).1 := by
+  rw [toEntry]
+  simp only [hkw, String.reduceBEq, Bool.or_self, Bool.false_eq_true, ↓reduceIte, Bool.false_and, fieldOrder,
+    List.foldl_cons, List.foldl_nil]
+  unfold usesStep dir0
+  simp only [hkw]
+  peel_dir
+
+theorem toEntry_case_uses_first (env : Env) (fuel : Nat) (root : Mod) (scope : List Stmt) (n : Stmt)
+    (visiting : List NodeId) (st : TState) (hkw : n.kw = "case") :
+    DirGrows ((n.all "uses").foldl (usesStep env fuel root (n :: scope) visiting) (dir0 root n, st)).1
+      (toEntry env (fuel + 1) root scope n visiting st).1 := by
+  rw [toEntry]
+  simp only [hkw, String.reduceBEq, Bool.or_self, Bool.false_eq_true, ↓reduceIte, Bool.false_and, fieldOrder,
+    List.foldl_cons, List.foldl_nil]
+  unfold usesStep dir0
+  simp only [hkw]
+  peel_dir
+
+theorem toEntry_input_uses_first (env : Env) (fuel : Nat) (root : Mod) (scope : List Stmt) (n : Stmt)
+    (visiting : List NodeId) (st : TState) (hkw : n.kw = "input") :
+    DirGrows ((n.all "uses").foldl (usesStep env fuel root (n :: scope) visiting) (dir0 root n, st)).1
+      (toEntry env (fuel + 1) root scope n visiting st).1 := by
+  rw [toEntry]
+  simp only [hkw, String.reduceBEq, Bool.or_self, Bool.false_eq_true, ↓reduceIte, Bool.false_and, fieldOrder,
+    List.foldl_cons, List.foldl_nil]
+  unfold usesStep dir0
+  simp only [hkw]
+  peel_dir
+
+theorem toEntry_output_uses_first (env : Env) (fuel : Nat) (root : Mod) (scope : List Stmt) (n : Stmt)
+    (visiting : List NodeId) (st : TState) (hkw : n.kw = "output") :
+    DirGrows ((n.all "uses").foldl (usesStep env fuel root (n :: scope) visiting) (dir0 root n, st)).1
+      (toEntry env (fuel + 1) root scope n visiting st).1 := by
+  rw [toEntry]
+  simp only [hkw, String.reduceBEq, Bool.or_self, Bool.false_eq_true, ↓reduceIte, Bool.false_and, fieldOrder,
+    List.foldl_cons, List.foldl_nil]
+  unfold usesStep dir0
+  simp only [hkw]
+  peel_dir
+
+theorem toEntry_notification_uses_first (env : Env) (fuel : Nat) (root : Mod) (scope : List Stmt) (n : Stmt)
+    (visiting : List NodeId) (st : TState) (hkw : n.kw = "notification") :
+    DirGrows ((n.all "uses").foldl (usesStep env fuel root (n :: scope) visiting) (dir0 root n, st)).1
+      (toEntry env (fuel + 1) root scope n visiting st).1 := by
+  rw [toEntry]
+  simp only [hkw, String.reduceBEq, Bool.or_self, Bool.false_eq_true, ↓reduceIte, Bool.false_and, fieldOrder,
+    List.foldl_cons, List.foldl_nil]
+  unfold usesStep dir0
+  simp only [hkw]
+  peel_dir
+
+/-- The entry a `list` statement starts from. -/
+def list0 (root : Mod) (n : Stmt) : Entry :=
+  .mk { name := n.arg, kind := kindOfKw n.kw, hasDir := true, node := n, nodeMod := root.seq, nodeKw := n.kw,
+        listAttr := some (listAttrOf n).1, errors := (listAttrOf n).2 } [] [] []
+
+theorem toEntry_list_uses_first (env : Env) (fuel : Nat) (root : Mod) (scope : List Stmt) (n : Stmt)
+    (visiting : List NodeId) (st : TState) (hkw : n.kw = "list") :
+    DirGrows ((n.all "uses").foldl (usesStep env fuel root (n :: scope) visiting) (list0 root n, st)).1
+      (toEntry env (fuel + 1) root scope n visiting st).1 := by
+  rw [toEntry]
+  simp only [hkw, String.reduceBEq, Bool.or_self, Bool.false_eq_true, ↓reduceIte, Bool.false_and, fieldOrder,
+    List.foldl_cons, List.foldl_nil]
+  unfold usesStep list0
+  simp only [hkw]
+  peel_dir
 
 end Goyang.Lemmas.Uses
